@@ -121,9 +121,44 @@ def gen_watch_case(rng):
     return {"mdp": m, "policy": pol, "explicit_lists": False, "family": "rounding-watch"}
 
 
+NEAR_ONE = ["1048575/1048576", "999999/1000000", "99999999/100000000"]     # 1 - 2^-20, 1 - 10^-6, 1 - 10^-8
+
+
+def gen_near_one_case(rng):
+    """discounted, discount rate just below 1, with a closed non-absorbing class the policy cannot leave
+    and whose rewards are non-zero: V ~ r/(1-gamma) (1e6..1e8) is far from what the undiscounted branch
+    would return (-inf / assertion); keeps the `gamma < 1` dispatch of evaluate_on under watch"""
+    g = rng.choice(NEAR_ONE)
+    nonpos = rng.random() < .6
+    m = gen_mdp.gen_mdp(rng, nmax=4, amax=3, gamma=g, nonpos=nonpos, goal=rng.random() < .7, min_states=2)
+    live = [s for s in range(m["n"]) if not m["absorbing"][s]]
+    if not live:
+        live = [0]
+        m["absorbing"][0] = False
+    C = rng.sample(live, rng.randint(1, min(2, len(live))))
+    for s in C:
+        for a in m["actions"][s]:
+            for k in [k for k in m["reward"] if k.startswith("%d,%d," % (s, a))]:
+                del m["reward"][k]
+            succ = rng.sample(C, rng.randint(1, len(C)))
+            ps = gen_mdp._split_prob(rng, len(succ))
+            m["trans"]["%d,%d" % (s, a)] = [[ns, str(p)] for ns, p in zip(succ, ps)]
+            for ns in succ:
+                r = rng.randint(-4, -1) if (nonpos or rng.random() < .5) else rng.randint(1, 4)
+                m["reward"]["%d,%d,%d" % (s, a, ns)] = str(F(r))
+    # start inside or next to the class so that it matters for the initial value and the occupancy
+    m["init"] = [[C[0], "1/2"], [rng.choice([x for x in range(m["n"]) if x != C[0]] or [C[0]]), "1/2"]]
+    if m["init"][0][0] == m["init"][1][0]:
+        m["init"] = [[C[0], "1"]]
+    return {"mdp": m, "policy": gen_policy(rng, m, rng.random() < .25), "explicit_lists": rng.random() < .3,
+            "family": "gamma-near-one"}
+
+
 def gen_case(rng, tier):
     if rng.random() < .05:
         return gen_watch_case(rng)
+    if rng.random() < .06:
+        return gen_near_one_case(rng)
     undisc = rng.random() < .45
     nmax = 5 if tier == "quick" else 7
     if undisc:
@@ -355,7 +390,8 @@ def run(ctx):
     terms, meta = [], []
     cnt = {k: 0 for k in ("discounted", "undiscounted", "form_tab", "form_fun", "nondyadic", "neginf_cases", "mixed_finite_and_neginf",
                           "occinf_cases", "q_absorbing_nonzero_cases", "policy_on_larger_state_list", "permuted_lists",
-                          "stochastic_policy_rows", "oracle_agree", "explicit_lists", "zero_prob_entries", "tau_certificates_accepted")}
+                          "stochastic_policy_rows", "oracle_agree", "explicit_lists", "zero_prob_entries", "tau_certificates_accepted",
+                          "gamma_near_one_cases", "rounding_watch_cases")}
     orcs = {}
     for i, (case, res) in enumerate(zip(cases, impl)):
         g = F(case["mdp"]["gamma"])
@@ -376,6 +412,8 @@ def run(ctx):
             ctx.violation(pre + "to_tabular-table-differs", {"case": case, "impl_table": res["table"], "expected": table}, found=True)
             continue
         cnt["undiscounted" if und else "discounted"] += 1
+        cnt["gamma_near_one_cases"] += int(case.get("family") == "gamma-near-one")
+        cnt["rounding_watch_cases"] += int(case.get("family") == "rounding-watch")
         cnt["form_" + case["policy"]["form"]] += 1
         cnt["nondyadic"] += int(case["policy"]["nondyadic"])
         cnt["explicit_lists"] += int(case["explicit_lists"])
@@ -442,7 +480,7 @@ def run(ctx):
     ctx.coverage.update({
         "evaluations": nchk,
         "distinct_nontrivial": len(distinct),
-        "rule": "MDPs from harness/gen_mdp.py (1..%d states, 1..3 actions, state-dependent action sets, k/8 probabilities, zero entries, explicit/implicit absorbing states with ignored self-loop rewards, multi-state initial distributions; 55%% discounted gamma in {1/2,3/4,7/8,9/10,19/20}, 45%% undiscounted with rewards <= 0, proper and improper, zero-reward regions) x random stochastic policies (deterministic rows, rows on the grid k/8 over subsets of the available actions, explicit zero entries, a share on denominators 3,5,6,7,10), given as TabularPolicy over permuted / larger state lists and permuted action lists or as FunctionalPolicy -> to_tabular; distinct = structural hash of (MDP, policy); non-trivial = at least one non-absorbing state" % (5 if tier == "quick" else 7),
+        "rule": "MDPs from harness/gen_mdp.py (1..%d states, 1..3 actions, state-dependent action sets, k/8 probabilities, zero entries, explicit/implicit absorbing states with ignored self-loop rewards, multi-state initial distributions; 55%% discounted gamma in {1/2,3/4,7/8,9/10,19/20} plus a family with gamma in {1-2^-20, 1-10^-6, 1-10^-8} and a closed non-absorbing rewarding class (values ~1e6..1e8), 45%% undiscounted with rewards <= 0, proper and improper, zero-reward regions) x random stochastic policies (deterministic rows, rows on the grid k/8 over subsets of the available actions, explicit zero entries, a share on denominators 3,5,6,7,10), given as TabularPolicy over permuted / larger state lists and permuted action lists or as FunctionalPolicy -> to_tabular; distinct = structural hash of (MDP, policy); non-trivial = at least one non-absorbing state" % (5 if tier == "quick" else 7),
         "samples": [{"case": cases[0], "impl": impl[0]}] if cases else [],
         "cases": len(cases),
         **cnt,
